@@ -74,10 +74,14 @@ func (wf *WALFileType) Replay(dryRun bool) error {
 				return fmt.Errorf("seek error: %w", err)
 			}
 			tgID, tgSerialized, err := wf.readTGData()
-			tgData[tgID] = tgSerialized
 			if continueRead = fullRead(err); !continueRead {
 				break // Break out of switch
 			}
+			if err != nil {
+				// a damaged TG record (e.g. checksum mismatch) is never replayed; keep scanning for intact ones
+				continue
+			}
+			tgData[tgID] = tgSerialized
 			// give up Replay if there is already a TG data location in this WAL
 			if _, ok := offsetTGDataInWAL[tgID]; ok {
 				log.Error(io.GetCallerFileContext(0) + ": Duplicate TG Data in WAL")
